@@ -29,7 +29,7 @@ func hostileTrace(en *Env, cfg h.Cfg) int {
 	nkeys := 3 + r.Intn(5)
 	dir := en.FreshDir()
 	defer en.Drop(dir)
-	u := h.SimpleKeys(nkeys, 5+r.Intn(10))
+	u := h.PickKeys(r, nkeys, 5+r.Intn(10))
 	vs := h.NewValues()
 	e := h.NewEng(dir, en.Work+"/scratch", cfg, u, vs, en.T)
 	e.Hostile = true
